@@ -162,6 +162,7 @@ type Event struct {
 	Cons  []string     `json:"cons"` // primitives consulted through a FailFS wrapper during the call, in order
 	Um    int          `json:"um"`   // umask of the (base / parent) file system itself, -1 when not observable
 	Leak  bool         `json:"leak"` // a path returned or embedded in an error reveals the base path (BasePathFS)
+	Uid   int          `json:"uid"`  // current user of the base file system under a RoFS / FailFS wrapper, -1 when not observed
 }
 
 // Edge is one transition of the bounded state graph emitted by TLC.
@@ -177,6 +178,7 @@ type Alt struct {
 
 type Edge struct {
 	Um   *int         `json:"um"`
+	Uid  *int         `json:"uid"`
 	T    string       `json:"t"`   // "" = transition, "alt" = an alternative outcome of the transition with the same key
 	Alt  *Alt         `json:"alt"` // the alternative (t == "alt")
 	Alts []Alt        `json:"alts"`
